@@ -326,8 +326,8 @@ PROPS["C16"] = dict(
 
 PROPS["C14"] = dict(
     pkg="sdl", test="TestC14", engine="sdl",
-    quick=dict(checks=2400, shards=4), thorough=dict(checks=64000, shards=16), timeout=dict(quick=600, thorough=3000),
-    nt_floor=dict(quick=840, thorough=30000),
+    quick=dict(checks=7200, shards=12), thorough=dict(checks=64000, shards=16), timeout=dict(quick=600, thorough=3000),
+    nt_floor=dict(quick=2500, thorough=30000),
     must_classes=["failing-load", "successful-load", "failing-load-touches-existing-definitions"] + ["fail-class=" + c for c in
                   ["syntax", "undefined-reference", "duplicate-type", "duplicate-member-by-extend", "extend-missing-target", "extend-kind-mismatch",
                    "validation-rule", "schema-block-then-failure", "reader-fault", "second-extension-fails", "addtypes-duplicate"]],
